@@ -3,7 +3,8 @@
 
    Objects: [run prof t init tr = Some s] — tr is a trace (any interleaving of client and handler
    calls, any length) of the stream LTS of Freighter/Stream.v for profile prof (0 = exactly
-   mock/stream.go, 1 = the documented contract of stream.go) on transport t (0 mock, 1/2
+   mock/stream.go, 2 = exactly the websocket client, 3 = exactly the grpc client, 1 = the
+   documented contract of stream.go) on transport t (0 mock, 1/2
    websocket json/msgpack, 3/4 grpc external/internal), ending in state s.
    c_sent / h_got / h_sent / c_got: payloads of the successful client Sends, of the values the
    handler received, of the successful handler Sends, of the values the client received. *)
@@ -88,11 +89,11 @@ Theorem C14_accepts_ok : forall prof t cl hl,
 Proof. exact accepts_ok. Qed.
 Print Assumptions C14_accepts_ok.
 
-(* (8) The reference implementation refines the documented contract. *)
-Theorem C14_mock_refines_contract : forall t tr s,
-  run 0 t init tr = Some s -> run 1 t init tr = Some s.
-Proof. intros t tr s. apply strict_refines_contract. exact Inv_init. Qed.
-Print Assumptions C14_mock_refines_contract.
+(* (8) Every implementation profile refines the documented contract. *)
+Theorem C14_transports_refine_contract : forall p t tr s,
+  run p t init tr = Some s -> run 1 t init tr = Some s.
+Proof. intros p t tr s. apply refines_contract. exact Inv_init. Qed.
+Print Assumptions C14_transports_refine_contract.
 
 (* (9) On every transport the error the client decodes matches the handler's error. *)
 Theorem C14_error_matches_on_every_transport : forall t e o,
@@ -150,12 +151,17 @@ Theorem C14_unregistered_sentinel_refuted :
 Proof. exact unregistered_sentinels_refuted. Qed.
 Print Assumptions C14_unregistered_sentinel_refuted.
 
-(* the contract is strictly laxer than the mock where two documented failure clauses overlap *)
-Theorem C14_contract_strictly_laxer :
-  let tr := [HRet None; CClose ROk; CRecv (RErr cEOF 0 []); CSend 5 (RErr cEOF 0 [])] in
-  (exists s, run 1 0 init tr = Some s) /\ run 0 0 init tr = None.
-Proof. exact contract_strictly_laxer. Qed.
-Print Assumptions C14_contract_strictly_laxer.
+(* the implementations really differ where two documented failure clauses overlap (Send after
+   CloseSend and after the terminal result: EOF on websocket, StreamClosed on mock / grpc); the
+   contract allows both *)
+Theorem C14_profiles_differ :
+  let pre := [HRet None; CClose ROk; CRecv (RErr cEOF 0 [])] in
+  let a := pre ++ [CSend 5 (RErr cEOF 0 [])] in
+  let b := pre ++ [CSend 5 (RErr cClosed 0 [])] in
+  (run 2 1 init a <> None /\ run 0 0 init a = None /\ run 3 3 init a = None /\ run 1 1 init a <> None) /\
+  (run 2 1 init b = None /\ run 0 0 init b <> None /\ run 3 3 init b <> None /\ run 1 1 init b <> None).
+Proof. exact profiles_differ. Qed.
+Print Assumptions C14_profiles_differ.
 
 (* Non-vacuity: a trace with traffic in both directions, CloseSend, a handler error of a
    registered kind with a separator in its message over grpc, repeated terminal reads and a
@@ -167,9 +173,9 @@ Definition ex_tr : list lab :=
    HRet (Some (Err 3 false [5; 6])); CSend 3 (RErr 2 0 [4]); CRecv (RVal 8);
    CRecv (RErr 3 0 [5; 6; 7]); CRecv (RErr 3 0 [5; 6; 7]); CSend 4 (RErr 2 0 [4])].
 Example C14_nonvacuous :
-  (exists s, run 0 3 init ex_tr = Some s /\ c_recvErr s = Some (3, 0, [5; 6; 7]) /\
+  (exists s, run 3 3 init ex_tr = Some s /\ c_recvErr s = Some (3, 0, [5; 6; 7]) /\
              s_recvErr s = Some (1, 0, [9])) /\
-  accepts 0 3 (filter is_client ex_tr) (filter (fun l => negb (is_client l)) ex_tr) = true /\
+  accepts 3 3 (filter is_client ex_tr) (filter (fun l => negb (is_client l)) ex_tr) = true /\
   accepts 1 3 [CRecv (RVal 8); CRecv (RVal 7)] [HSend 7 ROk; HSend 8 ROk; HRet None] = false /\
   ok_C14 [CRecv (RVal 8); CRecv (RVal 7)] [HSend 7 ROk; HSend 8 ROk; HRet None] = false.
 Proof. split; [eexists; split; [vm_compute; reflexivity|split; reflexivity]|]. vm_compute. auto. Qed.
